@@ -178,7 +178,7 @@ def run_case(rec, case):
         def rand_solvable(n, flavour):
             A = rng.standard_normal((n, n))
             if flavour == 'spd': A = A @ A.T + n * np.eye(n)
-            elif flavour == 'symmetric': A = A + A.T + (2 * n) * np.diag(rng.choice([-1.0, 1.0], n)) if False else A @ A.T + np.eye(n)
+            elif flavour == 'symmetric': A = A + A.T + (2 * n) * np.diag(rng.choice([-1.0, 1.0], n))      # symmetric, in general indefinite
             else: A = A + n * np.eye(n)
             return A
         if kind == 'solver':
